@@ -100,9 +100,11 @@ CLAIMED = {
                 "exists) with flags propagated as constants; on the whole encryption/decryption call tree, per scheme and "
                 "representation assumption, no arithmetic mixes coefficient and NTT form, the level-dependent mod-switch "
                 "of public-key encryption uses the routine of the ciphertext's representation, results leave with data "
-                "matching their flag; the stored seed is written and expanded at the same address and length.",
+                "matching their flag; the stored seed is written and expanded at the same address and length; the metadata "
+                "recorded on a fresh encryption is the one the scheme implies (CKKS: the plaintext's own level and scale, "
+                "BFV/BGV: the first level; representation flag; correction factor 1) in every encrypt form.",
         "note": _TB + "Not decided: that decryption returns the plaintext, any noise bound, CKKS encoding error.",
-        "technique": "constant propagation of dispatch flags + scheme projection + representation typestate + address agreement",
+        "technique": "constant propagation of dispatch flags + scheme projection + representation typestate + symbolic metadata + address agreement",
         "design_ref": "DESIGN.md §4 C01",
     },
     "C02": {
@@ -112,20 +114,25 @@ CLAIMED = {
                 "wrappers reach the transform of their direction/laziness; the BGV correction factor recorded by "
                 "multiply, square and mod-switch is the modular product the operation implies (symbolic metadata); on "
                 "the BFV and BGV projections no public evaluator operation mixes coefficient-form and NTT-form operands, "
-                "applies a transform / RNS routine outside its domain, or returns lazy or wrongly flagged data.",
+                "applies a transform / RNS routine outside its domain, or returns lazy or wrongly flagged data; in the key-switch "
+                "back end every stage touching an RNS slot of the scratch product uses the same prime index at every "
+                "level (symbolic unification of slot and index expressions); in the add/sub back ends every transfer of the "
+                "second operand into the result is selected by the subtract flag, with different routines per mode.",
         "note": _TB + "Not decided: exactness of the BEHZ steps, noise growth, the arithmetic of "
                 "balance_correction_factors, equality with the ring product.",
-        "technique": "symbolic buffer dimensions at call sites + operation-class delegation + symbolic metadata + representation typestate",
+        "technique": "symbolic buffer dimensions at call sites + operation-class delegation + symbolic metadata + representation typestate + slot/prime index unification + mode-flag control dependence",
         "design_ref": "DESIGN.md §3 R-SHAPE/R-FAMILY/R-METAFLOW/R-REPSTATE, §4 C02",
     },
     "C03": {
         "text": "Decides the three refusal clauses on the CKKS projection of the program (SchemeType dispatch "
                 "specialised to CKKS): for every form of add/sub/multiply/square/add_plain/sub_plain/multiply_plain, no "
                 "normally-returning path lacks a refusing branch on the levels of both ciphertexts, on the scales of "
-                "both operands, or on the resulting scale against the modulus size (interprocedural guard dominance).",
+                "both operands, or on the resulting scale against the modulus size (interprocedural guard dominance); the scale recorded by "
+                "multiply / square / multiply_plain / rescale is the product or quotient the operation implies (symbolic "
+                "metadata); the shared key-switch and add/sub back ends satisfy the slot/prime and mode-flag rules of C02.",
         "note": _TB + "Not decided: the numerical error bound, the tolerance used when comparing scales, and the "
-                "arithmetic value of the recorded scale.",
-        "technique": "scheme-projected guard-dominance dataflow over typed HIR with callee summaries",
+                "floating-point value of the recorded scale (only its symbolic form over the operands' scales).",
+        "technique": "scheme-projected guard-dominance dataflow + symbolic metadata over typed HIR with callee summaries",
         "design_ref": "DESIGN.md §3 R-GUARD, §4 C03",
     },
     "C04": {
